@@ -36,7 +36,7 @@ def _last_dominating_binding(name, f, at):
     return best
 
 
-def _is_owning_expr(e, f):
+def _is_owning_expr(e, f, _depth=0):
     """constructor call, copy()/self.copy()/deepcopy()"""
     if not isinstance(e, ast.Call):
         return False
@@ -47,6 +47,22 @@ def _is_owning_expr(e, f):
     r = f._mod.resolve(fn) if isinstance(fn, (ast.Name, ast.Attribute)) else None
     if isinstance(r, ClassInfo):
         return True
+    # a class taken from a class-level table of the compiler:  cls, flag = self.MEMBERS_TYPES[kind]; return cls(name, ...)
+    if isinstance(fn, ast.Name):
+        for a in walk_no_nested(f):
+            if isinstance(a, ast.Assign) and any(fn.id in flow.target_names(t) for t in a.targets):
+                v = a.value
+                if isinstance(v, ast.Subscript) and isinstance(v.value, ast.Attribute) and isinstance(v.value.value, ast.Name) and v.value.value.id in ('self', 'cls') \
+                        and v.value.attr.isupper():
+                    return True
+    # a factory method of the same compiler: every value it returns is itself owning (two levels)
+    if _depth < 2 and isinstance(fn, ast.Attribute) and isinstance(fn.value, ast.Name) and fn.value.id == 'self' and getattr(f, '_cls', None) is not None:
+        rr = f._cls.find_method(fn.attr)
+        if rr is not None and rr[1] is not f:
+            g = rr[1]
+            rets = [x for x in walk_no_nested(g) if isinstance(x, ast.Return)]
+            if rets and all(x.value is not None and _is_owning_expr(x.value, g, _depth + 1) for x in rets):
+                return True
     return False
 
 
